@@ -47,6 +47,8 @@ struct Plan {
     reply_delay_ms: u64,
     inner_cert: &'static str,
     seg_name: &'static str,
+    /// the caller raised `max_headers` to 1000 and the proxy's 2xx reply has well over a hundred fields
+    many_reply_fields: bool,
 }
 
 fn gen(g: &mut G, thorough: bool) -> Plan {
@@ -81,6 +83,15 @@ fn gen(g: &mut G, thorough: bool) -> Plan {
     for i in 0..g.below(4) {
         head.extend_from_slice(format!("X-Proxy-{}: {}\r\n", i, "v".repeat(g.size(2000))).as_bytes());
     }
+    // (no draw) a talkative proxy and a caller who allowed for it: the caller's header limit is the limit of
+    // every head read on the request's behalf
+    let many_reply_fields = success && (status as usize + head.len()) % 4 == 1;
+    if many_reply_fields {
+        for i in 0..130 {
+            head.extend_from_slice(format!("X-Hop-{}: {}\r\n", i % 7, i).as_bytes());
+        }
+        g.probe("connect-reply-with-more-fields-than-the-default-limit");
+    }
     // refusal bodies: announce a length sometimes (exact, or - for "endless" bodies - far beyond 10 KiB)
     let announce_len = !success && g.chance(1, 2);
     let head_without_len = head.clone();
@@ -107,6 +118,15 @@ fn gen(g: &mut G, thorough: bool) -> Plan {
         };
         gen::gen_bytes(n, 0, g.subseed())
     };
+    // (no draw) some refusals are text a person is meant to read: valid UTF-8, a long first line, characters of
+    // two to four octets at every offset of it
+    let body: Vec<u8> = if !body.is_empty() && body.len() <= 300 && body.len() % 3 == 1 {
+        g.probe("refusal-body-is-readable-text");
+        let pad = body.len() % 97;
+        format!("{}\u{e9}\u{20ac}\u{1f600}\u{20ac}\u{e9} - the proxy's policy forbids this destination; ask the administrator ({})\nsecond line\n", "a".repeat(pad), "\u{20ac}".repeat(pad % 5)).into_bytes()
+    } else {
+        body
+    };
     let mut head = head_without_len;
     if announce_len {
         head.extend_from_slice(format!("Content-Length: {}\r\n", body.len()).as_bytes());
@@ -130,7 +150,14 @@ fn gen(g: &mut G, thorough: bool) -> Plan {
     let (segs, seg_name) = gen::segmentation(g, wire.len(), &[head.len().saturating_sub(1), head.len(), head.len().saturating_sub(2)]);
     let reply = Script::from_wire(&wire, &segs, end);
     let inner_cert = if confusion { "good-wrongname" } else { "good" };
-    Plan { origin_host, origin_port, proxy_https, proxy_host, cred, status, head_kind, head, body, end, reply, reply_delay_ms: g.below(40), inner_cert, seg_name }
+    // (no draw) credentials that are a token only: no user name, just a password (`http://:token@proxy`)
+    let cred = if cred == Some(("onlyuser", None)) && status % 2 == 1 {
+        g.probe("proxy-credentials-without-a-user-name");
+        Some(("", Some("only-token")))
+    } else {
+        cred
+    };
+    Plan { origin_host, origin_port, proxy_https, proxy_host, cred, status, head_kind, head, body, end, reply, reply_delay_ms: g.below(40), inner_cert, seg_name, many_reply_fields }
 }
 
 enum Res {
@@ -362,6 +389,7 @@ pub fn scenario(g: &mut G, ctx: &RunCtx) -> RunReport {
         } else {
             attohttpc::post(&url)
         };
+        let rb = if p.many_reply_fields { rb.max_headers(1000) } else { rb };
         let r = rb
             .proxy_settings(ps)
             .add_root_certificate(ca_cert())
@@ -375,7 +403,11 @@ pub fn scenario(g: &mut G, ctx: &RunCtx) -> RunReport {
                 Res::Ok(st, resp.bytes().unwrap_or_default())
             }
             Err(e) => match e.kind() {
-                attohttpc::ErrorKind::ConnectError { status_code, body } => Res::ConnectError(status_code.as_u16(), body.clone()),
+                attohttpc::ErrorKind::ConnectError { status_code, body } => {
+                    // (rendered like every other error)
+                    let _ = err_kind(&e);
+                    Res::ConnectError(status_code.as_u16(), body.clone())
+                }
                 _ => Res::Err(err_kind(&e)),
             },
         }
